@@ -88,6 +88,19 @@ def run(rep):
         for rnd in (1, 2, 3):
             if rnd == 2:
                 _use_tables_in_modules()          # the library's own consumers must not write into what the loader hands out
+                # ... and EVERY public loader entry point with every argument form for every name, including the requests that
+                # the documented signatures refuse (the two-tree form of a compact table, a q-shift name given to the level-1
+                # loader and vice versa): raising is the documented answer, returning something is allowed - but whatever they
+                # do, the tables loaded AFTERWARDS (round 3) must still be the shipped ones and what was handed out before
+                # must not change (a conversion "on demand" that works on the cached arrays in place shows here)
+                for n in LEVEL1 + QSHIFT:
+                    for call in (lambda: coeffs.level1(n, compact=False), lambda: coeffs.level1(n), lambda: coeffs.level1(n, compact=True),
+                                 lambda: coeffs.biort(n), lambda: coeffs.qshift(n)):
+                        try:
+                            call()
+                        except Exception:   # noqa
+                            pass
+                        rep.validated()
             order1 = LEVEL1 if rnd != 2 else LEVEL1[::-1]
             order2 = QSHIFT if rnd != 2 else QSHIFT[::-1]
             for n in order1:
